@@ -305,10 +305,10 @@ def parser_semantics(ctx, rule):
                         f'step {i} ({k}) observes {got!r}; with first-in first-out delivery of the messages parsed so far it must be {e!r}',
                         construct=f'{cls.qname}::history::{sub}')
     # chunking independence on this stream: at once, byte by byte, every 2-cut, constructor, parse_all, parse
-    def all_msgs(chunks, how):
+    def all_msgs(chunks, how, kind='list'):
         def thunk():
             if how == 'ctor':
-                p = ai.apply(ClassRef(cls), [AList(list(stream), 'list')], {}, None)
+                p = ai.apply(ClassRef(cls), [AList(list(stream), kind)], {}, None)
             else:
                 p = ai.apply(ClassRef(cls), [], {}, None)
                 for ch in chunks:
@@ -316,14 +316,19 @@ def parser_semantics(ctx, rule):
                         for b in ch:
                             call(p, 'feed_byte', b)
                     else:
-                        call(p, 'feed', AList(list(ch), 'list'))
+                        call(p, 'feed', AList(list(ch), kind))
             return list(ai.iterate(p, None)), call(p, 'pending')
         return ai.explore(thunk)
-    variants = [('at once', [stream], 'feed'), ('byte by byte', [stream], 'bytes'), ('constructor', [stream], 'ctor')]
+    variants = [('at once', [stream], 'feed', 'list'), ('byte by byte', [stream], 'bytes', 'list'), ('constructor', [stream], 'ctor', 'list')]
     for cut in range(1, len(stream)):
-        variants.append((f'cut at {cut}', [stream[:cut], stream[cut:]], 'feed'))
-    for label, chunks, how in variants:
-        outs = all_msgs(chunks, how)
+        variants.append((f'cut at {cut}', [stream[:cut], stream[cut:]], 'feed', 'list'))
+    # "any iterable of integers": a tuple, and an iterator that can be walked only once (a generator, map(), iter(...))
+    for kind in ('tuple', 'iterator'):
+        variants.append((f'at once, as {kind}', [stream], 'feed', kind))
+        variants.append((f'constructor, given {kind}', [stream], 'ctor', kind))
+        variants.append((f'cut at 5, as {kind}', [stream[:5], stream[5:]], 'feed', kind))
+    for label, chunks, how, kind in variants:
+        outs = all_msgs(chunks, how, kind)
         ok = len(outs) == 1 and outs[0].kind == 'return' and len(outs[0].value[0]) == len(want) and \
             all(same(a, b) for a, b in zip(outs[0].value[0], want)) and outs[0].value[1] == 0
         ctx.require(ok, rule, f'parser-chunking[{label}]', w,
